@@ -156,6 +156,16 @@ Theorem C08_apply_diff_flatten : forall kl kr,
 Proof. exact reconstruct_flatten_eq. Qed.
 Print Assumptions C08_apply_diff_flatten.
 
+(* The side condition is needed: with a list item of L that contains no scalar (here an empty mapping)
+   the equation fails — the item is not re-added, the rebuilt list keeps a padding null in its place. *)
+Example C08_every_item_needs_a_scalar :
+  let l := Con [("a"%string, Lst [Con []; Leaf (SInt 1)])] in
+  let r := Con [("a"%string, Lst [Leaf (SInt 5)])] in
+  wf l = true /\ wf r = true /\ compat_g l r /\ eis l = false /\
+  flatten l = [("a[1]"%string, SInt 1)] /\
+  flatten (apply r (diff l r)) = [("a[0]"%string, SNull); ("a[1]"%string, SInt 1)].
+Proof. split; [reflexivity|]. split; [reflexivity|]. split; [cbn; tauto|]. repeat split; vm_compute; reflexivity. Qed.
+
 (* non-vacuity: the pair that was reconstructed wrongly on the pinned tree, and a list of lists *)
 Example C08_ex_keyed :
   let l := Con [("a"%string, Con [("n"%string, Con [("deep"%string, Lst [Leaf (SInt 1); Lst [Leaf (SInt 2)]])]); ("x"%string, Leaf (SInt 1))]);
